@@ -8,8 +8,8 @@ Part A (static converters, exhaustive): every valid sparse output for n <= N
   x index in {RangeIndex(0,n), RangeIndex(5,5+n), RangeIndex(0,2n,2), DatetimeIndex, PeriodIndex} x column labels
   {default ints, strings}.  Checked: sparse_to_dense(y, index, columns) carries exactly `index` and labels POSITION i with
   the segment number / the label of the covering anomaly (0 if none); dense_to_sparse of that dense frame gives y back
-  (affected columns compared as sets).  dense_to_sparse is fed the oracle's dense frame, so a wrong sparse_to_dense is not
-  reported a second time as a failed round trip.
+  (affected columns compared as sets).  dense_to_sparse is fed the real dense output when that is right and the oracle's
+  dense frame otherwise, so a wrong sparse_to_dense is not reported a second time as a failed round trip.
 Part B (transform of the 7 real detectors): fit/predict/transform on small data sets with separated, adjacent, point
   and end-touching events under the same index x column grid: transform(X).index equals X.index, the labels are the
   positional labelling of predict(X), and dense_to_sparse(transform(X)) reproduces predict(X).
@@ -220,6 +220,7 @@ def check_converters(rec, cls, kind, events, n, p, index_kind, column_kind, inp,
     except Exception as e:                                                      # noqa: BLE001
         dense, err = None, e
     call = via or f"{s2d_owner}.sparse_to_dense"
+    s2d_ok = False
     if err is not None:
         rec.violation(f"{s2d_owner}.sparse_to_dense:raises", f"{call} raised {type(err).__name__}: {err} for {what_in}",
                       "C05.dense_labels", inp)
@@ -245,8 +246,10 @@ def check_converters(rec, cls, kind, events, n, p, index_kind, column_kind, inp,
             rec.violation(f"{s2d_owner}.sparse_to_dense:" + ("labels-by-index-value" if by_index else "wrong-labels"),
                           f"{call} labels {got.T.tolist()} but positions are covered as {want.T.tolist()} for {what_in}",
                           "C05.dense_labels", inp)
-    # ---- dense -> sparse (fed the statement's dense frame: independent of the direction above)
-    frame = dense_frame(kind, want, index, columns)
+    # ---- dense -> sparse: fed the real dense output when that is right, else the statement's dense frame (so that a wrong
+    #      sparse_to_dense is not reported a second time as a failed round trip)
+    real_ok = err is None and dense is not None and s2d_ok and dense.index.equals(index)
+    frame = dense if real_ok else dense_frame(kind, want, index, columns)
     target = sparse_value(kind, events)
     try:
         back = read_sparse(kind, cls.dense_to_sparse(frame))
@@ -293,7 +296,7 @@ def coarsens(back, target):
 
 
 def part_a_cases(tier, rng):
-    """Yield (kind, n, p, events, exhaustive_flag)."""
+    """Yield (kind, n, p, events)."""
     nmax = 7
     for n in range(1, nmax + 1):
         for cps in changepoint_sets(n):
